@@ -57,7 +57,9 @@ def _impl_signal(c):
     with warnings.catch_warnings():
         warnings.simplefilter('ignore')
         th = dict(c['th']); snap = repr(th)
-        df0 = compute_features(proto.hex2arr(c['sig']), c['fs'], tuple(c['f_range']), center_extrema=c['center'], burst_method='cycles', threshold_kwargs=th)
+        # (a settings dictionary shared with the amplitude method may carry its own min_n_cycles in burst_kwargs: the consistency method ignores it)
+        bkx = {'min_n_cycles': 7, 'amp_threshes': (1, 2)} if len(c['sig']) % 3 == 0 else None
+        df0 = compute_features(proto.hex2arr(c['sig']), c['fs'], tuple(c['f_range']), center_extrema=c['center'], burst_method='cycles', burst_kwargs=bkx, threshold_kwargs=th)
         # the same thresholds dictionary again (a session / an object re-using its settings)
         df = compute_features(proto.hex2arr(c['sig']), c['fs'], tuple(c['f_range']), center_extrema=c['center'], burst_method='cycles', threshold_kwargs=th)
         if repr(th) != snap or not df.equals(df0):
